@@ -2922,6 +2922,11 @@ class WBEMConnection:  # pylint: disable=too-many-instance-attributes
                                 "list, got {0} object",
                                 instance.__class__.__name__),
                         conn_id=self.conn_id)
+                if instance.path is None:
+                    raise CIMXMLParseError(
+                        "Expecting CIMInstance object with path in result "
+                        "list, got object without path",
+                        conn_id=self.conn_id)
         else:
             # class-level invocation
             for obj in objects:
